@@ -113,6 +113,9 @@ def violation (p : Snap) (m : MAct) (sk : Bool) (n : Snap) : Option String :=
         else if !subset p.sessTopics n.tm then some "takeover-teardown:subscriptions-removed"
         else if n.watch != p.watch || n.db != p.db then some "takeover-teardown:persisted-copy-deleted"
         else none
+      else if k == j && p.sessMap && !p.sessClean && n.db != p.db then
+        -- the normal end of a connection with a persistent session keeps the persisted copy
+        some "reconnect:persisted-copy-lost"
       else if !intact n then some "drop:current-conn-broken" else none
     | none => if !intact n then some "drop:current-conn-broken" else none
   | .connect k clean =>
